@@ -199,6 +199,9 @@ def mknode(name, ret, **kw):
             time.sleep(ctl.slow)  # uncontrolled runs with node bodies that take real time
         if ctl is not None and name in ctl.fails:
             ctl.ev("BOOM", name)  # the node's function raises now
+            if sum(map(ord, name)) % 3 == 0:
+                # an explicitly chained exception (raise X from Y): the call's cause is still X, the exception the NODE raised
+                raise NodeBoom(name) from LookupError("low-level reason behind " + name)
             raise NodeBoom(name)
         return ret(*a, **k) if callable(ret) else ret
 
